@@ -13,11 +13,14 @@ Proof. vm_compute. reflexivity. Qed.
     value on every row (of the domain) is PySpark's value of the tree the user wrote *)
 Definition C05_full : Prop := full_for gen_cfg.
 
-(** what is proved: the same, plus structural identity of the re-read tree, on the decidable class [in_class]
-    (operands of comparison-level operators -- == != < <= > >= eqNullSafe isNull isNotNull isin between like --
-    and of arithmetic are closed: columns, literals, parenthesised results, -(x), CASE, CAST, calls, items;
-    operands of & | are closed or any forward boolean operator; excluded: endswith, getItem(<Column>), an aliased
-    Column or a F.when(...) result as a bound of between, cast(ty).cast(ty)) *)
+(** what is proved: the same, plus structural identity of the re-read tree, on the decidable class [in_class gen_cfg],
+    which widens with the regenerated facts: an operand of a comparison-level operator (== != < <= > >= eqNullSafe
+    isNull isNotNull isin between like ilike) must be closed (column, literal, parenthesised result, -(x), CASE, CAST,
+    call, item) UNLESS the operator passes its operands through column.py's _operand (facts bf_opwrap / c_pred_opwrap:
+    true since 693497d / 9e08992); operands of arithmetic are closed; operands of & | are closed or any forward boolean
+    operator; an aliased Column or F.when(...) as a bound of between only if between unaliases its bounds
+    (c_between_unalias: true since 27d8aae); endswith only if the emitted function exists (ENDS_WITH since ba0d1e8);
+    excluded: getItem(<Column>) (known finding), cast(ty).cast(ty) *)
 Theorem C05_partial :
   forall t, in_class gen_cfg t = true ->
     exists e, reparse (print (build gen_cfg t)) = ROk e [] /\ strip e = denote t /\ known e = true /\
